@@ -210,6 +210,9 @@ class RefEdge(object):
             return
         if cmd == b'NOOP':
             return self._say(ex, '250', actual)
+        if cmd == b'XHELP':
+            self._cb(ex, None, 'XHELP', arg.decode('latin-1') if arg else None)
+            return self._say(ex, '214', actual)
         if cmd == b'XCUST':
             # application-defined command: handed to the application in any state, which accepts it; no state change
             self._cb(ex, None, 'XCUST', arg.decode('latin-1') if arg else None)
